@@ -141,6 +141,69 @@ append_derivation(CPPType *base, CPPVisibility vis, bool is_virtual) {
 }
 
 /**
+ * Returns true if the indicated type is the class with the indicated name, or
+ * has it (as far as has been declared so far) among its direct or indirect
+ * bases.
+ */
+static bool
+leads_back_to(CPPType *type, const CPPStructType *target,
+              const std::string &target_name, int depth) {
+  if (type == target) {
+    return true;
+  }
+  if (type->is_tbd() || depth > 1000) {
+    return false;
+  }
+
+  CPPStructType *struct_type = type->as_struct_type();
+  if (struct_type == nullptr) {
+    // Perhaps it is a forward declaration of the class we are looking for.
+    CPPExtensionType *ext_type = type->as_extension_type();
+    return (ext_type != nullptr && ext_type->_ident != nullptr &&
+            ext_type->get_fully_scoped_name() == target_name);
+  }
+
+  for (const CPPStructType::Base &base : struct_type->_derivation) {
+    CPPType *base_type = base._base;
+    while (base_type != nullptr && base_type->as_typedef_type() != nullptr) {
+      base_type = base_type->as_typedef_type()->_type;
+    }
+    if (base_type != nullptr &&
+        leads_back_to(base_type, target, target_name, depth + 1)) {
+      return true;
+    }
+  }
+  return false;
+}
+
+/**
+ * Removes any base classes from the list that are, or that themselves inherit
+ * from, this class.  Returns true if there were any.  A class cannot be its
+ * own base class, and the code that walks the inheritance graph relies on
+ * there not being any cycles in it.
+ */
+bool CPPStructType::
+remove_cyclic_derivation() {
+  if (_ident == nullptr || is_tbd()) {
+    return false;
+  }
+
+  std::string this_name = get_fully_scoped_name();
+  bool any_removed = false;
+
+  Derivation::iterator di = _derivation.begin();
+  while (di != _derivation.end()) {
+    if (leads_back_to((*di)._base, this, this_name, 0)) {
+      di = _derivation.erase(di);
+      any_removed = true;
+    } else {
+      ++di;
+    }
+  }
+  return any_removed;
+}
+
+/**
  *
  */
 CPPScope *CPPStructType::
